@@ -53,12 +53,14 @@ Section Routing.
   Proof. intros H. exact H. Qed.
 
   (* ---- the invariant ---- *)
-  Definition pc_ok (p : pc) : Prop :=
+  Fixpoint pc_ok (p : pc) : Prop :=
     match p with
-    | PSetCache k _ ct | PGetPers k ct | PNxPers k _ ct | PNxUndo k ct => ct = cache_tier_for_key T c k /\ two_tier T c k = true
+    | PSetCache k _ ct | PGetPers k ct | PNxPers k _ ct | PNxUndo k ct
+    | PGetRecheck k ct | PGetPersL k ct | PGetFill k ct _ | PSetInval k ct => ct = cache_tier_for_key T c k /\ two_tier T c k = true
     | PDelPers k _ | PExPers k => two_tier T c k = true
     | PIncrSet _ _ => False
-    | PIdle | PSetStart _ _ => True
+    | PIdle | PSetStart _ _ | PBegin => True
+    | PWant nxt => pc_ok nxt
     end.
   Definition thread_ok (t : thread) : Prop := match t with TCaller cl => pc_ok (cpc cl) | TWb _ _ => True end.
   Definition good (w : world) : Prop :=
@@ -77,13 +79,33 @@ Section Routing.
   Qed.
   Lemma good_hist w e : good w -> good (add_hist w e).
   Proof. intros [Ha Hs]. split; cbn; assumption. Qed.
+  Lemma good_lock w k b : good w -> good (set_lock w k b).
+  Proof. intros [Ha Hs]. split; cbn; assumption. Qed.
 
   Definition ok2 (r : caller * world) : Prop := pc_ok (cpc (fst r)) /\ good (snd r).
 
   Lemma finish_ok cl w r : good w -> ok2 (finish cl w r).
   Proof.
     intros Hg. unfold ok2, finish. cbn [fst snd cpc]. split; [exact I|].
-    destruct (cur cl); [apply good_hist|]; exact Hg.
+    assert (H1 : good (match cur cl with Some o => add_hist w (me cl, o, r) | None => w end))
+      by (destruct (cur cl); [apply good_hist|]; exact Hg).
+    destruct (held cl); [apply good_lock|]; exact H1.
+  Qed.
+  Lemma acquire_ok cl w nxt : good w -> pc_ok nxt -> ok2 (acquire cl w nxt).
+  Proof.
+    intros Hg Hn. unfold acquire. destruct (w_locks w (cur_key cl)); split; cbn [fst snd cpc set_pc pc_ok]; auto using good_lock.
+  Qed.
+  Lemma release_good cl w : good w -> good (snd (release cl w)).
+  Proof. intros Hg. unfold release. destruct (held cl); cbn; [apply good_lock|]; exact Hg. Qed.
+  Lemma list_go_on_ok cl w k v : good w -> ok2 (list_go_on c cl w k v).
+  Proof.
+    intros Hg. unfold list_go_on. destruct (fix_list c); [split; cbn; auto|].
+    pose proof (release_good cl w Hg) as Hr. destruct (release cl w) as [cl1 w1]. cbn [snd] in Hr.
+    destruct (fix_wb c); split; cbn; auto.
+  Qed.
+  Lemma get_miss_ok cl w k ct : good w -> ct = cache_tier_for_key T c k -> two_tier T c k = true -> ok2 (get_miss c cl w k ct).
+  Proof.
+    intros Hg Hct H2. unfold get_miss. destruct (fix_wb c); [destruct (held cl)|]; split; cbn; auto.
   Qed.
   Lemma set_pc_ok cl w p : good w -> pc_ok p -> ok2 (set_pc cl p, w).
   Proof. intros Hg Hp. split; cbn; assumption. Qed.
@@ -113,20 +135,20 @@ Section Routing.
       + assert (H2 : two_tier T c k = true) by (unfold two_tier; rewrite Hc, Hp; reflexivity).
         destruct f; [apply finish_ok, good_acc; [exact Hg|exact H2]|].
         apply set_pc_ok; [apply good_wr; [exact Hg|exact H2]|]. split; [symmetry; exact Hk|exact H2].
-      + apply finish_ok. destruct f; [apply good_acc|apply good_wr]; assumption.
+      + destruct f; apply finish_ok; [apply good_acc|apply good_wr]; assumption.
     - destruct f; apply finish_ok; [apply good_acc|apply good_wr]; assumption.
     - destruct (en_pers c) eqn:Hp.
       + assert (H2 : two_tier T c k = true) by (unfold two_tier; rewrite Hc, Hp; reflexivity).
         destruct f; [apply finish_ok, good_acc; [exact Hg|exact H2]|].
         apply set_pc_ok; [apply good_wr; [exact Hg|exact H2]|]. split; [symmetry; exact Hk|exact H2].
-      + apply finish_ok. destruct f; [apply good_acc|apply good_wr]; assumption.
+      + destruct f; apply finish_ok; [apply good_acc|apply good_wr]; assumption.
   Qed.
 
-  Lemma get_done_ok cl w r : good w -> ok2 (get_done cl w r).
+  Lemma get_done_ok cl w r : good w -> ok2 (get_done c cl w r).
   Proof.
     intros Hg. unfold get_done.
     destruct (cur cl) as [[]|]; try (apply finish_ok; exact Hg);
-      destruct r as [| | |[]| |]; first [apply finish_ok; exact Hg | apply set_pc_ok; [exact Hg|exact I]].
+      destruct r as [| | |[]| |]; first [apply finish_ok; exact Hg | apply list_go_on_ok; exact Hg].
   Qed.
 
   Lemma get_start_ok cl w k f : good w -> ok2 (get_start T c cl w k f).
@@ -136,11 +158,11 @@ Section Routing.
     - destruct (if f then None else tget w TLocal k); apply get_done_ok, good_acc; assumption.
     - destruct (if f then None else tget w TLocal k); [apply get_done_ok, good_acc; assumption|].
       destruct (en_pers c) eqn:Hp; [|apply get_done_ok, good_acc; assumption].
-      apply set_pc_ok; [apply good_acc; assumption|]. split; [symmetry; exact Hk|unfold two_tier; rewrite Hc, Hp; reflexivity].
+      apply get_miss_ok; [apply good_acc; assumption|symmetry; exact Hk|unfold two_tier; rewrite Hc, Hp; reflexivity].
     - apply get_done_ok, good_acc; assumption.
     - destruct (if f then None else tget w (sp_cache c) k); [apply get_done_ok, good_acc; assumption|].
       destruct (en_pers c) eqn:Hp; [|apply get_done_ok, good_acc; assumption].
-      apply set_pc_ok; [apply good_acc; assumption|]. split; [symmetry; exact Hk|unfold two_tier; rewrite Hc, Hp; reflexivity].
+      apply get_miss_ok; [apply good_acc; assumption|symmetry; exact Hk|unfold two_tier; rewrite Hc, Hp; reflexivity].
   Qed.
 
   Lemma del_start_ok cl w k f : good w -> ok2 (del_start T c cl w k f).
@@ -197,12 +219,14 @@ Section Routing.
     intros Hp Hg. unfold caller_step.
     destruct (cpc cl) eqn:Epc; cbn [pc_ok] in Hp.
     - destruct (ops cl) as [|o r]; [split; [cbn; rewrite Epc; exact I|exact Hg]|].
+      destruct (locks_op c o); [apply acquire_ok; [exact Hg|exact I]|].
       destruct (pop_fault cl) as [f cl1].
       destruct o; cbn [op_start];
         first [apply set_start_ok | apply get_start_ok | apply del_start_ok | apply exists_start_ok
               | apply incr_start_ok | apply setnx_start_ok]; exact Hg.
-    - destruct Hp as [-> H2]. destruct (pop_fault cl) as [f cl1]. apply finish_ok.
-      destruct f; [apply good_acc|apply good_wr]; first [exact Hg | apply allowed_cache].
+    - destruct Hp as [-> H2]. destruct (pop_fault cl) as [f cl1].
+      destruct f; [destruct (fix_cwf c); [apply set_pc_ok; [apply good_acc; [exact Hg|apply allowed_cache]|split; [reflexivity|exact H2]]|]|];
+        apply finish_ok; [apply good_acc|apply good_wr]; first [exact Hg | apply allowed_cache].
     - destruct Hp as [-> H2]. destruct (pop_fault cl) as [f cl1].
       destruct f; [apply get_done_ok, good_acc; [exact Hg|exact H2]|].
       destruct (tget w TPers k); apply get_done_ok; [apply good_spawn; [|reflexivity]|]; apply good_acc; first [exact Hg|exact H2].
@@ -216,6 +240,22 @@ Section Routing.
       apply finish_ok, good_wr; [exact Hg|exact H2].
     - destruct Hp as [-> H2]. destruct (pop_fault cl) as [f cl1]. apply finish_ok.
       destruct f; [apply good_acc|apply good_wr]; first [exact Hg | apply allowed_cache].
+    - (* PWant *) apply acquire_ok; assumption.
+    - (* PBegin *) destruct (pop_fault cl) as [f cl1]. destruct (cur cl1) as [o|]; [|split; [cbn; rewrite Epc; exact I|exact Hg]].
+      destruct o; cbn [op_start];
+        first [apply set_start_ok | apply get_start_ok | apply del_start_ok | apply exists_start_ok
+              | apply incr_start_ok | apply setnx_start_ok]; exact Hg.
+    - (* PGetRecheck *) destruct Hp as [-> H2]. destruct (pop_fault cl) as [f cl1].
+      destruct (if f then None else tget w (cache_tier_for_key T c k) k).
+      + apply get_done_ok, good_acc; [exact Hg|apply allowed_cache].
+      + apply set_pc_ok; [apply good_acc; [exact Hg|apply allowed_cache]|split; [reflexivity|exact H2]].
+    - (* PGetPersL *) destruct Hp as [-> H2]. destruct (pop_fault cl) as [f cl1].
+      destruct f; [apply get_done_ok, good_acc; [exact Hg|exact H2]|].
+      destruct (tget w TPers k); [apply set_pc_ok; [apply good_acc; [exact Hg|exact H2]|split; [reflexivity|exact H2]]|apply get_done_ok, good_acc; [exact Hg|exact H2]].
+    - (* PGetFill *) destruct Hp as [-> H2]. destruct (pop_fault cl) as [f cl1]. apply get_done_ok.
+      destruct f; [apply good_acc|apply good_wr]; first [exact Hg | apply allowed_cache].
+    - (* PSetInval *) destruct Hp as [-> H2]. destruct (pop_fault cl) as [f cl1].
+      destruct f; apply finish_ok; [apply good_acc|apply good_wr]; first [exact Hg | apply allowed_cache].
   Qed.
 
   Definition RInv (s : world * list thread) : Prop := good (fst s) /\ Forall thread_ok (snd s).
